@@ -1,7 +1,5 @@
 #!/bin/bash
-# runs every seeded mutation through its property's quick check; results in out/seeded_results.txt
+# runs every seeded mutation (or those matching $1) through its property's quick check, 4 at a time
 cd /verif; mkdir -p out; : > out/seeded_results.txt
-for d in seeded/*/; do
-  tools/run_seeded.sh $d >> out/seeded_results.txt 2>&1
-done
+ls -d seeded/*${1:-}*/ | xargs -P 4 -I{} sh -c 'tools/run_seeded.sh {} >> out/seeded_results.txt 2>&1'
 echo done >> out/seeded_results.txt
